@@ -63,7 +63,7 @@ def check(ctx) -> Result:
         res.add(normal(loops[0]) == normal(loops[1]), "H2-sibling-herald-rewrites", "add_empty_mode_to_circuit_spec:Group.heralds", fe.site(loops[0]), fe.qualname,
                 "input and output herald keys of a group are shifted by the same predicate", "input and output herald keys of a group are shifted differently", construct=normal(loops[0])[:100] + " <> " + normal(loops[1])[:100])
     else:
-        res.bad("H2-sibling-herald-rewrites", "add_empty_mode_to_circuit_spec:Group.heralds", fe.site(), fe.qualname, "group herald keys are not rewritten for both input and output", construct="heralds")
+        res.frozen(False, "H2-sibling-herald-rewrites", "add_empty_mode_to_circuit_spec:Group.heralds", fe.site(), fe.qualname, "", "the two herald re-keying loops were not recognised (that Group.heralds is rewritten at all is decided by H2-every-mode-field-shifted)", construct="heralds")
     # ---- pairing
     cn = C.name
     init = C.methods["__init__"]
@@ -154,7 +154,7 @@ def check(ctx) -> Result:
             no += 1
             res.add(good, "P-herald-order-preserved", f"{fi_.qualname}:{src(it)[:50]}", fi_.site(n), fi_.qualname, "rebuilt herald map keeps the declaration order of the old one",
                     f"herald map is rebuilt iterating `{src(it)[:60]}`: declaration order is lost, but Circuit.add pairs the i-th declared input herald with the i-th declared output herald", construct=src(it)[:120])
-    res.floor("P herald rebuild loops", no, 3)
+    res.floor("P herald rebuild loops", no, 1)
     # ---- group-free typestate
     groups = []
     for fi in ctx.ix.all_functions():
